@@ -3,7 +3,7 @@
 # (VERIF_REPO), print which rule(s) fired; 8 seeds at a time.   exit 1 if any seed is not reported.
 # usage: tools/all_seeds.sh [ID ...]
 cd /verif
-ids="$@"; [ -z "$ids" ] && ids=$(ls seeded)
+ids="$@"; [ -z "$ids" ] && ids=$(ls seeded | grep -v UNDETECTED)
 run_one() {
   id=$1; p=${id%-*}; d=/tmp/seedrun-$id
   rm -rf $d; mkdir -p $d/repo
@@ -17,5 +17,13 @@ run_one() {
 export -f run_one
 printf "%s\n" $ids | xargs -P 8 -I{} bash -c 'run_one {}' | sort > /tmp/all_seeds.out
 cat /tmp/all_seeds.out
-if grep -qv "exit=1 " /tmp/all_seeds.out; then exit 1; fi
-exit 0
+# seeds listed in seeded/UNDETECTED are expected to pass unnoticed (exit=0); anything else that is not reported fails
+und=$(grep -v "^#" seeded/UNDETECTED 2>/dev/null | awk '{print $1}')
+bad=0
+while read -r line; do
+  id=${line%% *}
+  case "$line" in *"exit=1 "*) continue;; esac
+  if echo "$und" | grep -qx "$id" && echo "$line" | grep -q "exit=0 "; then echo "(expected) $line"; continue; fi
+  bad=1
+done < /tmp/all_seeds.out
+exit $bad
